@@ -63,3 +63,11 @@ Theorem C04_structured_js_is_canonical :
     js_of (rebuilt en props pc p) ind fm = pp_js_p fm en props ind p.
 Proof. exact nest_js. Qed.
 Print Assumptions C04_structured_js_is_canonical.
+
+(* ... and with counting loops: "for(v = a; v <= b; v++) {" / "for(v = a; v >= b; v--) {" *)
+From DRX Require Import Spec.SpecFor Proofs.LingoNestForText.
+Theorem C04_structured_js_with_counting_loops :
+  forall fm en props q, js_ok_q en props q -> forall pc ind,
+    js_of (final en props pc q) ind fm = pp_js_q fm en props ind q.
+Proof. exact for_js. Qed.
+Print Assumptions C04_structured_js_with_counting_loops.
